@@ -32,6 +32,7 @@ type Solver struct {
 	dead    bool
 	kind    string
 	curTO   int
+	nsync   int
 }
 
 // NewSolver starts kind = "z3" | "z3-new" | "cvc5".
@@ -112,13 +113,37 @@ func (s *Solver) Check(timeoutMS int) (Result, string) {
 		}
 	}
 	start := time.Now()
-	s.send("(check-sat)\n")
+	// Synchronisation marker: everything the solver prints before the marker
+	// belongs to earlier commands (an "(error ...)" for a rejected definition
+	// or assertion). Such a line must never be taken for the answer, and the
+	// answer of this check-sat must never be left in the pipe for a later
+	// query; a session that printed anything unexpected is retired.
+	s.nsync++
+	marker := fmt.Sprintf("gosym-sync-%d", s.nsync)
+	s.send("(echo \"" + marker + "\")\n(check-sat)\n")
 	s.Queries++
+	stray := ""
+	for {
+		l, err := s.readLine()
+		if err != nil {
+			s.dead = true
+			s.Time += time.Since(start)
+			return Unknown, "solver died: " + err.Error()
+		}
+		if strings.Trim(l, "\"") == marker {
+			break
+		}
+		stray = l
+	}
 	line, err := s.readLine()
 	s.Time += time.Since(start)
 	if err != nil {
 		s.dead = true
 		return Unknown, "solver died: " + err.Error()
+	}
+	if stray != "" {
+		s.retire()
+		return Unknown, "solver output before check-sat: " + stray
 	}
 	switch line {
 	case "sat":
@@ -128,8 +153,20 @@ func (s *Solver) Check(timeoutMS int) (Result, string) {
 	case "unknown":
 		return Unknown, "unknown"
 	}
+	s.retire()
 	return Unknown, "unexpected solver output: " + line
 }
+
+// retire kills a session whose output stream can no longer be trusted.
+func (s *Solver) retire() {
+	s.dead = true
+	if s.cmd != nil && s.cmd.Process != nil {
+		s.cmd.Process.Kill()
+	}
+}
+
+// Dead reports whether the session must be replaced.
+func (s *Solver) Dead() bool { return s.dead }
 
 func (s *Solver) readLine() (string, error) {
 	for {
@@ -200,10 +237,12 @@ func (s *Solver) Values(ts []*Term) ([]string, error) {
 			return nil, err
 		}
 		if strings.Contains(txt, "(error") {
+			s.retire()
 			return nil, fmt.Errorf("solver error: %s", txt)
 		}
 		vals := parseValues(txt)
 		if len(vals) != hi-lo {
+			s.retire()
 			return nil, fmt.Errorf("cannot parse get-value answer (%d of %d): %s", len(vals), hi-lo, txt)
 		}
 		copy(out[lo:hi], vals)
